@@ -27,8 +27,12 @@ INVARIANTS = ['TypeOK', 'InvKilledNotNamed', 'InvNamedKilled', 'InvRightPilot', 
 PROPERTIES = ['ActFinalKept']
 DEVS       = {'DevFinalFilterFirst': 'InvKilledNotNamed', 'DevNoPmgrCheck': 'InvKilledNotNamed',
               'DevStopAtUnknown': 'InvNamedKilled', 'DevNoRecheckAtLaunch': 'InvNamedKilled',
-              'DevLaunchOutsideLock': 'InvNamedKilled', 'DevRegisterAfterSubmit': 'InvFinalReported',
+              'DevRegisterAfterSubmit': 'InvFinalReported',
               'DevReportForMate': 'InvRightPilot'}
+# deviations of the code's shape which do not break the property on their own (the kill is enacted a
+# moment later; C14 states no immediacy): the model has to stay correct with them
+EQUIV      = ['DevLaunchOutsideLock']
+ALL_DEVS   = list(DEVS) + EQUIV
 
 IDS = {'p1': K.PIDS[0], 'p2': K.PIDS[1], 'p3': K.PIDS[2], 'ux': K.GHOST}
 
@@ -36,7 +40,7 @@ IDS = {'p1': K.PIDS[0], 'p2': K.PIDS[1], 'p3': K.PIDS[2], 'ux': K.GHOST}
 def mc_cfg(pilots, maxreq, maxctl, devs=(), symmetry=True, invariants=None, props=None):
     c = ('CONSTANTS\n Pilots = {%s}\n Ghost = ux\n MaxReq = %d\n MaxCtl = %d\n'
          % (', '.join('p%d' % i for i in range(1, pilots + 1)), maxreq, maxctl))
-    for d in DEVS:
+    for d in ALL_DEVS:
         c += ' %s = %s\n' % (d, 'TRUE' if d in devs else 'FALSE')
     c += 'SPECIFICATION Spec\nCHECK_DEADLOCK FALSE\n'
     if symmetry:
@@ -276,6 +280,8 @@ def classify(trace, clause=''):
         jc, lostp = set(), None
         for e in evs:
             jc |= set(e['jobc'])
+            if e['ev'] == 'JobEnds' and e['final']:
+                jc.add(e['pid'])             # the job ended by itself: nothing is owed
             if e['ev'] in ('Work', 'End'):
                 for r in e['post']:
                     if r['pre'] and r['lv'] == 'live' and r['pid'] not in jc and \
@@ -384,6 +390,19 @@ def run(chk, tier, seed):
             if res.violated != inv:
                 raise Machinery('deviation %s not detected by the model (got %s)' % (dev, res.violated))
             chk.notes.append('deviation %s breaks %s in the design model' % (dev, inv))
+        for dev in EQUIV:
+            res = tlc.run('PilotKill', 'PilotKill', 'MC.cfg', workers=8, timeout=600,
+                          extra_files=mc_cfg(2, 1, 2, devs=[dev]))
+            chk.add_tlc(res, 'equivalent:' + dev)
+            if not res.ok:
+                raise Machinery('%s alone must not break the model (got %s)' % (dev, res.violated))
+            res = tlc.run('PilotKill', 'PilotKill', 'MC.cfg', workers=8, timeout=600,
+                          extra_files=mc_cfg(2, 1, 2, devs=[dev, 'DevNoRecheckAtLaunch']))
+            chk.add_tlc(res, 'deviation:%s+DevNoRecheckAtLaunch' % dev)
+            if res.violated != 'InvNamedKilled':
+                raise Machinery('%s + DevNoRecheckAtLaunch not detected (got %s)' % (dev, res.violated))
+            chk.notes.append('%s alone keeps all invariants (the kill is enacted once the bulk is registered); '
+                             'with DevNoRecheckAtLaunch it breaks InvNamedKilled' % dev)
 
     # ---- 3. TLC behaviours -> scenarios for the real code ------------------------
     inputs, seen = [], set()
